@@ -82,7 +82,7 @@ type URIParamsLst struct {
 
 // Reset re-initializes the parsed parameter list
 func (l *URIParamsLst) Reset() {
-	for i := 0; i < l.PNo(); i++ {
+	for i := 0; i < len(l.Params); i++ {
 		l.Params[i].Reset()
 	}
 	t := l.Params
